@@ -14,12 +14,12 @@ from ..symx import Expander, TupleV, ListV
 from ..ncf import M
 from .. import ncf, anf
 from ..anf import R, Unsupported
-from .common import struct_ob, guard, last_return, U
+from .common import refresh_obligation, default_instance_obligations, struct_ob, guard, last_return, U
 from .gpm import gp_expander, refs, mob, REL
 from ..report import AnalysisError
 
 COV = "inference/gp/covariance.py"
-FLOORS = {"posterior-closed-form": 6, "factor-of": 1, "triangular-solves": 1, "kernel-result-shape": 2,
+FLOORS = {"state-refreshed": 1, "components-not-shared": 1, "posterior-closed-form": 6, "factor-of": 1, "triangular-solves": 1, "kernel-result-shape": 2,
           "error-input-typestate": 3, "query-normalisation": 4}
 
 
@@ -123,6 +123,10 @@ def run(prog, tier):
         obs.append(struct_ob("query-normalisation", qual(c, fn), ok,
                              f"`{p}` must be used only as the argument of self.process_points (uses: {len(uses)}, normalising calls: {len(calls)})",
                              REL, fn.lineno))
+
+    obs.extend(default_instance_obligations(prog, "components-not-shared", [('GpRegressor', '__init__')]))
+
+    obs.append(refresh_obligation(prog, "state-refreshed", "GpRegressor", "set_hyperparameters"))
 
     meta = {
         "explanation": "Matrix normal form: alpha, the point-wise mean/variance, the joint mean/covariance and the mean-only path "
